@@ -104,10 +104,17 @@ func (c *Ctx) bytesAxioms(s string) {
 	c.strAxioms()
 	c.decls.declFun("bytes_str", []string{s}, "Str")
 	c.decls.axiom("bytes_str", fmt.Sprintf("(forall ((b %s)) (! (=> (<= 0 (len_%s b)) (= (str_len (bytes_str b)) (len_%s b))) :pattern ((bytes_str b))))", s, s, s))
-	c.decls.declFun("str_cmp", []string{"Str", "Str"}, "Int")
-	c.trust("bytes.Compare/Equal/HasPrefix and string comparison: lexicographic total order on content (axiomatised: range {-1,0,1}, zero iff equal content, antisymmetry, transitivity, prefix implies <=, prefix ranges convex)")
-	c.decls.axiom("str_cmp/range", "(forall ((a Str) (b Str)) (! (and (<= (- 1) (str_cmp a b)) (<= (str_cmp a b) 1) (= (= (str_cmp a b) 0) (= a b)) (= (str_cmp a b) (- (str_cmp b a)))) :pattern ((str_cmp a b))))")
-	c.decls.axiom("str_cmp/trans", "(forall ((a Str) (b Str) (c Str)) (! (=> (and (<= (str_cmp a b) 0) (<= (str_cmp b c) 0)) (and (<= (str_cmp a c) 0) (=> (or (< (str_cmp a b) 0) (< (str_cmp b c) 0)) (< (str_cmp a c) 0)))) :pattern ((str_cmp a b) (str_cmp b c))))")
+	// the lexicographic order on strings is a countable total order, hence it embeds
+	// into the rationals: str_ord is such an order embedding (injective), and str_cmp is
+	// defined through it, so the order axioms come from real arithmetic
+	c.decls.declFun("str_ord", []string{"Str"}, "Real")
+	c.decls.declFun("str_ord_inv", []string{"Real"}, "Str")
+	if !c.decls.have["str_cmp"] {
+		c.decls.have["str_cmp"] = true
+		c.decls.lines = append(c.decls.lines, "(define-fun str_cmp ((a Str) (b Str)) Int (ite (< (str_ord a) (str_ord b)) (- 1) (ite (= (str_ord a) (str_ord b)) 0 1)))")
+	}
+	c.trust("bytes.Compare/Equal/HasPrefix and string comparison: lexicographic total order on content, modelled by an injective order embedding of strings into the rationals; prefix implies <=, prefix ranges are convex")
+	c.decls.axiom("str_ord/inj", "(forall ((a Str)) (! (= (str_ord_inv (str_ord a)) a) :pattern ((str_ord a))))")
 }
 
 func bytesKey(env *Env, v Val) string {
